@@ -63,10 +63,52 @@ fn mentions_own_death(input: &Input, own: &VId) -> bool {
 
 pub fn c08(seed: u64, budget: u64) -> FOut {
     let mut out = FOut::default();
-    out.rule = "seeded single-instance histories (300 calls: structured and corrupted datagrams over a small identity/incarnation domain with address conflicts, own timers in any order, every API call incl. change_identity / leave / reuse_down_identity) on the real crate; a set S is maintained from MemberUp / MemberDown / Rename(a,b: replace a by b if present) alone and after EVERY call S must equal the ids of Foca::iter_members() and |S| = num_members(); MemberUp for a member in S / MemberDown for one not in S is a hit; a mode {Idle,Active,Defunct} is maintained from Active / Idle / Defunct / Rejoin (and the API calls that change identity) alone: Active only from Idle with S non-empty at that point of the effect sequence, Idle only from Active with S empty, at the end of every call Active implies S non-empty and the mode agrees with the hook's connection_state; Defunct / Rejoin only in calls whose input mentions the own identity as Suspect/Down, is a TurnUndead or is leave_cluster, and always (Rejoin or Defunct) when a member held Down sends a TurnUndead to the current identity - also when already defunct; Rejoin(n) iff the identity changed in a call other than change_identity, n is the new identity and wins against the old one; after Defunct no Active until an identity change; a twin instance with the same seed driven through AccumulatingRuntime must return the same results and yield the same sends, timers and notifications in the same order (per queue) after every call. distinct = distinct (input kind, notification multiset) pairs".into();
+    out.rule = "seeded single-instance histories (300 calls: structured and corrupted datagrams over a small identity/incarnation domain with address conflicts, own timers in any order, every API call incl. change_identity / leave / reuse_down_identity) on the real crate; a set S is maintained from MemberUp / MemberDown / Rename(a,b: replace a by b if present) alone and after EVERY call S must equal the ids of Foca::iter_members() and |S| = num_members(); MemberUp for a member in S / MemberDown for one not in S is a hit; a mode {Idle,Active,Defunct} is maintained from Active / Idle / Defunct / Rejoin (and the API calls that change identity) alone: Active only from Idle with S non-empty at that point of the effect sequence, Idle only from Active with S empty, at the end of every call Active implies S non-empty and the mode agrees with the hook's connection_state; Defunct / Rejoin only in calls whose input mentions the own identity as Suspect/Down, is a TurnUndead or is leave_cluster, and always (Rejoin or Defunct) when a member held Down sends a TurnUndead to the current identity - also when already defunct; Rejoin(n) iff the identity changed in a call other than change_identity, n is the new identity and wins against the old one; after Defunct no Active until an identity change; a table (renew kinds x own incarnation x Suspect at own / MAX-1 / MAX or Down told about the own identity): irrefutable news ends in exactly one Defunct (identity kept, defunct) or one Rejoin(n) (n the new, winning identity), refutable news in neither; a twin instance with the same seed driven through AccumulatingRuntime must return the same results and yield the same sends, timers and notifications in the same order (per queue) after every call. distinct = distinct (input kind, notification multiset) pairs".into();
     let mut total_calls = 0u64;
     let mut note_calls = 0u64;
     let mut idle_nonempty = 0u64;
+    // 'Defunct or Rejoin when and only when the instance learns its identity is Down or can no longer
+    // refute a suspicion': a table over renew kinds x own incarnation x news about the own identity
+    for k in 0..4u8 {
+        for bumps in [0u16, 1, 3] {
+            for (ustate, uinc_sel) in [(1u8, 0u8), (1, 1), (1, 2), (2, 0), (2, 2)] {
+                // uinc_sel: 0 = own incarnation (refutable when Suspect), 1 = MAX-1 (refutable), 2 = MAX
+                let own = VId { a: 9, g: 1, k, pad: 0 };
+                let mut inst = Inst::new(own, &crate::falsify::big_cfg(), seed ^ 0xC08, 0, 255);
+                let mut rec = Rec(vec![]);
+                let _ = call(&mut inst.foca, &Input::ApplyMany(vec![MMember { id: VId { a: 2, g: 0, k: 0, pad: 0 }, inc: 0, state: 0 }], false), &mut rec);
+                for i in 0..bumps {
+                    let _ = call(&mut inst.foca, &Input::ApplyMany(vec![MMember { id: own, inc: i, state: 1 }], false), &mut rec);
+                }
+                let pre = inst.snapshot();
+                let uinc: u16 = match uinc_sel { 0 => pre.incarnation as u16, 1 => 65534, _ => 65535 };
+                let mut rec = Rec(vec![]);
+                let input = Input::ApplyMany(vec![MMember { id: own, inc: uinc, state: ustate }], false);
+                let r = catch_unwind(AssertUnwindSafe(|| call(&mut inst.foca, &input, &mut rec)));
+                total_calls += 1;
+                if r.is_err() {
+                    continue; // panics are C06's business
+                }
+                let post = inst.snapshot();
+                let irrefutable = ustate == 2 || uinc == 65535;
+                let defunct = rec.0.iter().filter(|e| matches!(e, Eff::Notify(MNote::Defunct))).count();
+                let rejoin: Vec<VId> = rec.0.iter().filter_map(|e| if let Eff::Notify(MNote::Rejoin(n)) = e { Some(*n) } else { None }).collect();
+                let row = format!("renew kind {k}, own incarnation {}, told {} at incarnation {uinc}: notifications {:?}, identity {:?} -> {:?}", pre.incarnation,
+                    if ustate == 1 { "Suspect" } else { "Down" }, rec.0.iter().filter(|e| matches!(e, Eff::Notify(_))).collect::<Vec<_>>(), pre.identity, post.identity);
+                out.distinct.insert(hash_of(&("table", k, bumps, ustate, uinc_sel)));
+                if irrefutable {
+                    use foca::Identity;
+                    let ok = (defunct == 1 && rejoin.is_empty() && post.identity == pre.identity && post.conn == 2)
+                        || (defunct == 0 && rejoin.len() == 1 && rejoin[0] == post.identity && post.identity != pre.identity && post.identity.win_addr_conflict(&pre.identity));
+                    if !ok {
+                        out.hit("C08:irrefutable-news-without-defunct-or-rejoin", J::s(row));
+                    }
+                } else if defunct + rejoin.len() != 0 || post.identity != pre.identity {
+                    out.hit("C08:defunct-or-rejoin-on-refutable-news", J::s(row));
+                }
+            }
+        }
+    }
     for h in 0..budget {
         let hseed = seed.wrapping_mul(104729).wrapping_add(h);
         let mut g = G::new(hseed);
